@@ -609,6 +609,45 @@ def gen_child(rng, parent_gen, hook_p=0.4, ignore=None, allow_super=True):
     return spec, g
 
 
+def gen_variant(rng, spec_, gen, parent_gen=None, toggle_ignore=True):
+    """The same module edited: same rule names, ranks and kinds, one or two bodies regenerated,
+    the ignore declaration possibly toggled ("edit the base, re-run everything").
+    Returns (spec, gen)."""
+    import copy
+    s = copy.deepcopy(spec_)
+    g = Gen(rng, gen.features)
+    g.max_rep_lo = gen.max_rep_lo
+    g.lits = list(gen.lits)
+    g.res = list(gen.res)
+    g.tagn = gen.tagn + 1000
+    g.table = {n: dict(i) for n, i in gen.table.items()}
+    g.anon_patterns = list(getattr(gen, 'anon_patterns', ()))
+    supers = ()
+    if parent_gen is not None:
+        supers = tuple(sorted(n for n, i in parent_gen.table.items() if i['kind'] in ('rule', 'class')))
+    rules = [it for it in s['items'] if it['k'] == 'rule' and not it.get('ignore') and not it.get('params')]
+    for it in rng.sample(rules, min(len(rules), rng.choice([1, 1, 2]))):
+        info = g.table[it['name']]
+        consume = not info['nullable']
+        it['expr'] = g.expr(info['rank'], True, consume, 0, supers)
+        info['nullable'] = nullable(it['expr'], g._env())
+    if toggle_ignore and parent_gen is None:
+        decl = [it for it in s['items'] if it['k'] == 'ignore' or it.get('ignore')]
+        x = rng.random()
+        if decl and x < 0.4:
+            s['items'] = [it for it in s['items'] if it not in decl]
+            for it in decl:
+                if it.get('name'):
+                    g.table.pop(it['name'], None)
+        elif decl and x < 0.6:
+            for it in decl:
+                if it['expr'][1] in (' +', '[ \\n]+'):
+                    it['expr'] = ['re', ' +' if it['expr'][1] != ' +' else '[ \\n]+']
+        elif not decl and x < 0.5:
+            s['items'].append({'k': 'ignore', 'expr': ['re', rng.choice([' +', '[ \\n]+'])]})
+    return s, g
+
+
 # --------------------------------------------------------------------------------- sampling texts
 
 class Sampler:
